@@ -45,7 +45,7 @@
    read_signals_time_table give well-formedness and the time table for all of them), the hierarchy; those are decided by the correspondence run on signal sections and by the GHW
    file generator (MANIFEST level_note). *)
 From WV Require Import Generated.Consts Model.Base Model.Bits Model.WaveMem Model.Ghw Spec.TimeSpec Proofs.TimeTableProofs Proofs.BitsProofs Proofs.StoreProofs Proofs.RawProofs Proofs.VecProofs Proofs.VecStepProofs Proofs.GhwProofs Proofs.GhwCycleProofs Model.Leb128
-  Model.Hierarchy Model.FstHier Model.GhwAlias Model.GhwHier Proofs.GhwHierProofs Proofs.GhwStringProofs Model.GhwFile Proofs.GhwFileProofs.
+  Model.Hierarchy Model.FstHier Model.GhwAlias Model.GhwHier Proofs.GhwHierProofs Proofs.GhwStringProofs Model.GhwFile Proofs.GhwFileProofs Proofs.GhwExample.
 From Coq Require Import Sorted List. Import ListNotations.
 Open Scope N_scope.
 
@@ -429,6 +429,21 @@ Check enum_lits_codes :
 
 
 
+
+(* end to end: a concrete GHW file of 291 bytes (Proofs/GhwExample.v: `data : std_logic_vector(3 downto 0)` and `cnt : integer`;
+   snapshot 01xz and 5 at time 0; one cycle section at 10 fs with a delta cycle: 1100 and -2, then 1101) goes through the model of
+   the whole loader inside Coq and comes out as the file says - the delta cycle as a separate entry under the same time index,
+   the integer as a 32-bit two's complement number, the time table 0, 10 *)
+Check example_ghw_loads :
+  example_load
+  = Ok ([(0, KFour, [48; 49; 120; 122]); (1, KBinary, [49; 49; 48; 48]); (1, KBinary, [49; 49; 48; 49])],
+        [(0, KBinary, repeat 48 29 ++ [49; 48; 49]); (1, KBinary, repeat 49 31 ++ [48])],
+        [0; 10]).
+Check example_ghw_hypotheses :
+  exists res tpes blocks ttb,
+    ghw_read_file id_compress 65535 true example_ghw = Ok (res, tpes, Some (blocks, ttb)) /\ bytes_ok (ghr_rest res) /\
+    tpes = [EncBits 4; EncBits 32].
+
 (* the two halves of the loader fit together: the decode information of every header the model reads satisfies the premise of
    the section theorems, so that for a whole file they hold without any assumption about the header *)
 Check header_decode_info_ok :
@@ -465,6 +480,8 @@ Check (eq_refl : len_code = fix len_code fuel n :=
   end).
 Check string_table_example.
 
+Print Assumptions example_ghw_loads.
+Print Assumptions example_ghw_hypotheses.
 Print Assumptions header_decode_info_ok.
 Print Assumptions ghw_file_store_ops.
 Print Assumptions string_table_decoded.
